@@ -37,13 +37,25 @@ Lemma list_search_sound : forall fuel i vl pl pre app,
              vl = firstn i' vl ++ pl ++ skipn (i' + length pl) vl.
 Proof.
   induction fuel as [|fuel IH]; intros i vl pl pre app H; simpl in H; [discriminate|].
-  destruct (zlist_eqb pl (firstn (length pl) (skipn i vl))) eqn:E.
+  destruct (window_match pl (firstn (length pl) (skipn i vl))) eqn:E.
   - inversion H; subst. exists i. split; auto. split; auto.
+    unfold window_match in E. apply andb_prop in E. destruct E as [_ E].
     apply zlist_eqb_eq in E.
     rewrite <- (firstn_skipn i vl) at 1. f_equal.
     rewrite <- (firstn_skipn (length pl) (skipn i vl)) at 1. rewrite <- E. f_equal.
     rewrite skipn_skipn'. auto.
   - eapply IH; eauto.
+Qed.
+
+Lemma oz_eq_refl_hd : forall l, l <> [] -> oz_eq (hd_error l) (hd_error l) = true.
+Proof. destruct l; [tauto|]. intros _. simpl. apply Z.eqb_refl. Qed.
+
+(* the two endpoint shortcuts are implied by the full comparison: the window test IS list equality (for a non-empty stored list) *)
+Lemma window_match_iff : forall pl sub, pl <> [] -> window_match pl sub = zlist_eqb pl sub.
+Proof.
+  intros pl sub Hne. unfold window_match. destruct (zlist_eqb pl sub) eqn:E; [|apply andb_false_r].
+  apply zlist_eqb_eq in E. subst sub. rewrite oz_eq_refl_hd by auto. rewrite oz_eq_refl_hd; auto.
+  intro R. apply Hne. rewrite <- (rev_involutive pl). rewrite R. auto.
 Qed.
 
 Lemma norm_cons_list : forall x l, norm (VList (x :: l)) = VList (x :: l).
@@ -187,3 +199,17 @@ Proof.
     symmetry. apply not_true_is_false. intro F. rewrite forallb_forall in F. rewrite (F c Hc) in Hs. discriminate.
   - exfalso. unfold delete_null_columns in H. destruct (existsb _ cols); simpl in H; [destruct H as [H|[]]; discriminate | destruct H].
 Qed.
+
+(* ------------------------------------------------------------------ BatchQuery: every statement is sent exactly once *)
+Lemma bq_fold : forall ops st,
+  concat (snd (fold_left bq_step ops st)) ++ fst (fold_left bq_step ops st) = concat (snd st) ++ fst st ++ bq_added ops.
+Proof.
+  induction ops as [|o ops IH]; intros [q sent]; simpl.
+  - rewrite app_nil_r. auto.
+  - rewrite IH. destruct o as [s|]; simpl.
+    + rewrite <- app_assoc. auto.
+    + destruct q; simpl; auto. rewrite concat_app. simpl. rewrite app_nil_r. rewrite <- app_assoc. auto.
+Qed.
+
+Lemma bq_once : forall ops, concat (snd (bq_run ops)) ++ fst (bq_run ops) = bq_added ops.
+Proof. intros. unfold bq_run. rewrite bq_fold. reflexivity. Qed.
